@@ -11,11 +11,11 @@ CHECKS = {
  "C01": dict(
     level="model_checking", ref="DESIGN.md §4 C01",
     technique="TLA+ spec RtStream/RtStreamAbs checked by TLC + TLC-generated call sequences replayed through libovni and validated against the spec (trace validation)",
-    text="TLC explores every call sequence of the scaled faithful model (CAP=56) and every fill level of the real 2 MiB buffer in the size-abstracted model; invariants Fidelity, OnlyMarkers, HeaderFirst, Tiling, BufferBound. The spec is bound to src/rt/ovni.c by replaying every call at every one of the last 64 fill levels plus TLC -simulate walks through the real library and validating the recorded file sizes and the decoded stream with RtStreamTrace.tla.",
+    text="TLC explores every call sequence of the scaled faithful model (CAP=56) and every fill level of the real 2 MiB buffer in the size-abstracted model; invariants Fidelity, OnlyMarkers, HeaderFirst, Tiling, BufferBound. The spec is bound to src/rt/ovni.c by replaying every call at every one of the last 64 fill levels plus TLC -simulate walks through the real library and validating the recorded file sizes and the decoded stream with RtStreamTrace.tla; runs are repeated under an LD_PRELOAD shim that makes write() truthfully short. The inductive invariant 0 <= fill < CAP and no nested flush (RtStreamInd.tla, same arithmetic module) is discharged by Apalache for the real capacity and a symbolic jumbo size.",
     note="Payload/jumbo bytes are opaque ids in TLA+; their byte equality (MCV, clock, payload, jumbo data) is checked by the harness decoder against the driver's emit log. Logical clock abstracts CLOCK_MONOTONIC. Exhaustive only within the stated constants."),
  "C02": dict(
     level="model_checking", ref="DESIGN.md §4 C02",
-    technique="TLA+ spec RtStream/RtStreamAbs checked by TLC (ClockMonotone, FlushPaired, NoNestedFlush) + negative configurations + replay of TLC-generated protocol-conformant programs through libovni, trace validation and ovniemu -l",
+    technique="TLA+ spec RtStream/RtStreamAbs checked by TLC (ClockMonotone, FlushPaired, NoNestedFlush) + Apalache inductive invariant (RtStreamInd) + negative configurations + replay of TLC-generated protocol-conformant programs through libovni, trace validation and ovniemu -l",
     text="Same models as C01 with the validity invariants (tiling, monotone clocks, paired non-nested flush markers); the arithmetic of the pinned commit is kept as a negative configuration that TLC must refute. Every generated program is run against the real library, its stream validated by RtStreamTrace.tla (observed markers paired, clocks monotone, sizes) and the directory is fed to ovniemu -l which must accept.",
     note="Programs are single-threaded protocol-conformant scripts (multi-thread isolation is C11). Exhaustive within constants; the emulator is part of the observation."),
 
@@ -31,9 +31,9 @@ CHECKS = {
     note="OAr to the CPU the thread is already on is Unspecified (refused by a duplicate rule the property does not mention)."),
  "C06": dict(
     level="model_checking", ref="DESIGN.md §4 C06",
-    technique="TLA+ spec Emu (View = function of thread state, binding and raw channel values) explored by TLC over all interleavings of value/state/affinity events; histories replayed on ovniemu for every published channel of every model; views validated by EmuTrace.tla",
-    text="Property layer View(thread/CPU, quantity, tracking mode) is checked on the real Paraver output after every event of TLC-generated histories (one channel per tracking mode ANY/RUN/ACT, stack and single), and the accepted histories are re-instantiated for each of the 19 published channels of the 8 models (table spec/data/events.json).",
-    note="The implementation-layer patch bay (dirty list / mux callbacks) is not yet a separate TLA+ refinement; the code is bound directly to the property layer. CPU idle default (Resting) is allowed where the property allows it."),
+    technique="TLA+ specs Emu (View = function of thread state, binding and raw channel values) and Bay (channel/patch-bay/mux implementation layer) explored by TLC over all interleavings of value/state/affinity events and all write orders; Bay behaviours replayed in-process on chan.c/bay.c/mux.c; histories replayed on ovniemu for every published channel of every model; views validated by EmuTrace.tla",
+    text="Property layer View(thread/CPU, quantity, tracking mode) is checked on the real Paraver output after every event of TLC-generated histories (one channel per tracking mode ANY/RUN/ACT, stack and single), and the accepted histories are re-instantiated for each of the 19 published channels of the 8 models (table spec/data/events.json), with virtual CPUs in the alphabet. Implementation layer Bay.tla (chan_set / dirty list / mux callbacks of chan.c, bay.c, mux.c; every write order of an event; three refuted wrong variants) is replayed in-process on the real chan/bay/mux objects (drivers/bayharness). The traces recorded by the repository's own emulation test programs are validated against the same View (suite traces).",
+    note="Bay.tla models one mux (select + N inputs + output), the wiring used for thread and CPU tracking; the whole-emulator composition is bound through the property layer. CPU idle default (Resting) is allowed where the property allows it."),
  "C07": dict(
     level="model_checking", ref="DESIGN.md §4 C07",
     technique="TLA+ spec EmuFull (task/body state machine of task.c/body.c with the nOS-V and Nanos6 rules) explored by TLC with invariants; transition cover replayed on ovniemu; task id/type/body/app/rank timelines validated by EmuTrace.tla",
@@ -48,7 +48,7 @@ CHECKS = {
     level="model_checking", ref="DESIGN.md §4 C17",
     technique="TLA+ spec EmuFull (mark channels: stack/single, ACTIVE/RUNNING tracking) explored by TLC; transition cover replayed on ovniemu and validated by EmuTrace.tla; runtime side through drivers/rtdrive",
     text="Bounded model with a stack and a single mark type, two threads, pause/cool/migrate; push on single, set on stack, zero values, undefined types and mismatched pops must be rejected; timelines of types 101/102 on thread and CPU rows validated after every event.",
-    note="Runtime-side refusals and label merging are covered by the runtime mark programs (see evidence notes)."),
+    note="Runtime side: spec MarkRt (ovni_mark_type/label/push/pop/set refusals and metadata merging) with programs replayed on libovni through drivers/markdrive, then emulated."),
 
  "C09": dict(
     level="fault_enumeration", ref="DESIGN.md §4 C09",
@@ -59,17 +59,17 @@ CHECKS = {
     level="fault_enumeration", ref="DESIGN.md §4 C10",
     technique="TLA+ spec RtFs with a Fail alternative for every call (one fault per run) checked by TLC; every libovni system call of every scenario is failed with strace error injection on the real library and the outcome is judged by the C10 monitors of RtFsTrace.tla",
     text="TLC checks C10a/b/c (normal return => a complete copy exists; the only complete copy is never deleted; nothing accepted lacks flushed bytes) for a single failing call anywhere, and refutes the variant that ignores copy errors. On the code each call index is failed with ENOSPC/EIO/EACCES (the call is not executed) and the exit kind (abort with diagnostic / normal return), the disk state of tmp and final directories and the emulator verdicts are validated.",
-    note="Error injection skips the call (no partial effect); truthful short writes are not injected. Faults are single."),
+    note="Error injection skips the call (no partial effect); truthful short writes are injected separately through an LD_PRELOAD shim (every write returns at most k bytes) and must leave complete streams. Faults are single."),
  "C11": dict(
     level="model_checking", ref="DESIGN.md §4 C11",
     technique="TLA+ spec RtProc (CAS-guarded life-cycle, thread-local state) checked by TLC over all interleavings; TLC -simulate schedules replayed step by step on libovni through the hook points (drivers/mtdrive) and validated by RtProcTrace.tla; free-running runs under ThreadSanitizer",
-    text="All interleavings of 3 threads over 7 programs at linearization-point granularity with InitOnce, FiniOnce, RecordStableWhileRead, NoOpBeforeReady, Isolation, StMonotone; a load+store 'CAS' is refuted. ~1000 (quick) generated schedules are forced on the real library with gates at ovni_verif_point 1-4 and before each API call; every step outcome, refusal class and the per-thread streams on disk are validated. TSan free runs must be race-free.",
+    text="All interleavings of 3 threads over 7 programs at linearization-point granularity with InitOnce, FiniOnce, RecordStableWhileRead, NoOpBeforeReady, Isolation, StMonotone; a load+store 'CAS' is refuted. ~1000 (quick) generated schedules are forced on the real library with gates at ovni_verif_point 1-4 and before each API call; every step outcome, refusal class and the per-thread streams on disk are validated. Free-running programs (no gates) with racing init/fini/thread_init are run many times, also under ThreadSanitizer with relocation (OVNI_TMPDIR) on; the per-operation outcomes of every run must be one of the outcome vectors TLC computes for that program (RtProcFree.tla) and TSan must report nothing.",
     note="Schedules are forced at API/hook granularity only; absence of data races in C is observed (TSan), not proved; a CAS weakened to load+store is caught by the model, only probabilistically on the code."),
  "C13": dict(
     level="model_checking", ref="DESIGN.md §4 C13",
     technique="TLA+ spec PrvTrace (clauses of the property as operators; expected row names from SystemOps) evaluated by TLC on the real .prv/.pcf/.row files of accepted runs over TLC-generated histories of all bounded models and the metadata family",
-    text="Every clause (non-decreasing times, rows in range, header duration = last event time, types declared in the .pcf, labelled state values, .row names/count/order) is evaluated by TLC on the files written by the real emulator for thousands of accepted runs covering all models, marks, tasks, ranks and two looms.",
-    note="Speaks of accepted traces only; 64-bit values are folded before TLC; breakdown files are covered by C20."),
+    text="Every clause (non-decreasing times, rows in range, header duration = last event time, types declared in the .pcf, labelled state values, .row names/count/order) is evaluated by TLC on the files written by the real emulator for thousands of accepted runs covering all models, marks, tasks, ranks, two looms, multi-process systems and the breakdown files written with -b.",
+    note="Speaks of accepted traces only; 64-bit values are folded before TLC; the semantics of breakdown rows is C20, their well-formedness is checked here."),
  "C14": dict(
     level="model_checking", ref="DESIGN.md §4 C14",
     technique="TLA+ spec Version (Compatible/Parse/ShouldEnable + code-shaped layer) checked exhaustively by TLC; exported cases replayed on version_parse/version_is_compatible/ovni_version_check_str/ovni_thread_require and on ovniemu (require versions, model enabling)",
@@ -89,13 +89,13 @@ CHECKS = {
  "C20": dict(
     level="model_checking", ref="DESIGN.md §4 C20",
     technique="TLA+ specs SortOps/SortMod (sort_replace as written vs sorted-multiset property, only-changed-rows written) and Breakdown/BreakdownMC (tri rule + mux selection memory) checked by TLC; exported sequences replayed in-process on sort.c (drivers/sortharness) and histories replayed with ovniemu -b, validated by BreakdownTrace.tla",
-    text="The full finite state space of the sort module for n<=4 inputs is explored with RowsSorted / OnlyChangedWritten / AllChangedWritten and four refuted wrong variants; all exported replacement cases and module histories are replayed on the real sort.c; nOS-V and Nanos6 bounded models (2-3 CPUs) are explored and thousands of histories are emulated with -b: after every event the breakdown rows must be the sorted multiset of the per-CPU values given by the tri rule applied to the same run's cpu.prv and predicted by the spec.",
+    text="The full finite state space of the sort module for n<=4 inputs is explored with RowsSorted / OnlyChangedWritten / AllChangedWritten and four refuted wrong variants; all exported replacement cases and module histories are replayed on the real sort.c; nOS-V and Nanos6 bounded models (2-3 CPUs) are explored and thousands of histories (also on two looms: rows over the physical CPUs of all looms) are emulated with -b: after every event the breakdown rows must be the sorted multiset of the per-CPU values given by the tri rule applied to the same run's cpu.prv and predicted by the spec.",
     note="One genuine finding is listed in known-findings.txt (stale tr-mux selection); the spec tolerates exactly that state and reports every other disagreement."),
 
  "C03": dict(
     level="model_checking", ref="DESIGN.md §4 C03",
     technique="TLA+ specs Player/PlayerMerge (property layer Merge), PtrHeap/PlayerHeap/HeapOps (heap.h and player.c transcribed) checked by TLC incl. refinement HeapPlayer => Merge; exported heap op sequences replayed on the real heap.h (drivers/heapharness), exported stream sets replayed through ovnidump/ovnitop/ovniemu in several enumeration orders and validated by PlayerTrace.tla",
-    text="TLC checks the structural heap invariants and that every emission of the pointer-heap player is an allowed step of the abstract k-way merge (ties free), corrected clocks and output times, independence of the enumeration order, with 12 refuted negative configurations. ~19k heap op sequences are replayed on heap.h comparing popped keys and the whole pointer structure; 1200 (quick) stream sets with offset tables are materialised in several directory orders (and nftw orders through a shim) and the observed replay order / PRV times validated by TLC.",
+    text="TLC checks the structural heap invariants and that every emission of the pointer-heap player is an allowed step of the abstract k-way merge (ties free), corrected clocks and output times, independence of the enumeration order, with 12 refuted negative configurations. ~19k heap op sequences are replayed on heap.h comparing popped keys and the whole pointer structure; 1200 (quick) stream sets with offset tables are materialised in several directory orders (and nftw orders through a shim), also with clocks seconds apart and with looms sharing a host name, and the observed replay order / PRV times validated by TLC.",
     note="ovnidump/ovnitop have no clock-offset input (offsets exercised on ovniemu only); a stream whose first corrected clock is negative is refused by the code (modelled via Base, assumption)."),
  "C12": dict(
     level="model_checking", ref="DESIGN.md §4 C12",
@@ -106,7 +106,7 @@ CHECKS = {
  "C16": dict(
     level="model_checking", ref="DESIGN.md §4 C16",
     technique="TLA+ spec OvniSort (property layer SortedStablePermutation/PrefixUntouched/Idempotent + implementation layer: region automaton, look-back ring, find_destination, stable re-sort, ring rebuild) checked by TLC for refinement over all small streams; exported streams replayed through ovnisort / ovnisort -c / ovniemu and random larger runs validated by OvniSortTrace.tla",
-    text="TLC explores every stream of <=6 events over 3-4 clock values with regions, jumbo events and several ring sizes (0.77M states quick, 9.8M thorough): Impl => Property, tightness of the look-back precondition, idempotence, four refuted negative configurations. ~7400 exported (stream, ring) pairs are materialised byte for byte and the tool's exit status, output order, size, untouched prefix, second run, check mode and emulator verdict compared with TLC's; random streams up to thousands of events are validated in the recorded direction.",
+    text="TLC explores every stream of <=6 events over 3-4 clock values with regions, jumbo events and several ring sizes (0.77M states quick, 9.8M thorough): Impl => Property, tightness of the look-back precondition, idempotence, four refuted negative configurations. ~7400 exported (stream, ring) pairs are materialised byte for byte and the tool's exit status, output order, size, untouched prefix, second run, check mode and emulator verdict compared with TLC's; random streams up to thousands of events and traces with two streams (the look-back ring must not leak between streams) are validated in the recorded direction.",
     note="Stability relies on glibc's merge-sort qsort; outside the preconditions the tool may leave the stream unsorted with exit 0 (Unspecified by the property); a second run may fail when the sorted stream no longer satisfies the look-back (file unchanged)."),
 
  "C19": dict(
